@@ -329,12 +329,14 @@ def origin_key(e):
     if o is None:
         return "outside-typedpy:%s" % type(e).__name__
     rel, fn, line, fr = o
-    key = "%s:%s:%s" % (os.path.basename(rel), fn, type(e).__name__)
-    if raise_statement_at(rel, line) is None:
-        loc = fr.f_locals
-        val = loc["value"] if "value" in loc else loc.get("source_val", loc.get("val", _MISSING))
-        key += "/%s/%s" % (leaf_kind(loc.get("self")), "-" if val is _MISSING else value_category(val))
-    return key
+    if raise_statement_at(rel, line) is not None:
+        return "%s:%s:%s" % (os.path.basename(rel), fn, type(e).__name__)
+    # not tied to the name of the function the expression happens to live in: extracting a helper does not
+    # turn a known defect into a new one
+    loc = fr.f_locals
+    val = loc["value"] if "value" in loc else loc.get("source_val", loc.get("val", _MISSING))
+    return "%s:%s/%s/%s" % (os.path.basename(rel), type(e).__name__, leaf_kind(loc.get("self")),
+                            "-" if val is _MISSING else value_category(val))
 
 
 def value_category(v):
@@ -692,45 +694,179 @@ NESTED_INPUTS = [
 ]
 
 
-def nested_checks(rep):
-    """For nested structures the helper must return without raising (all four configurations)."""
+NESTED3_SRC = """
+class Leaf(Structure):
+    x = PositiveInt
+    s = String(maxLength=3)
+    e = Enum(values=Color)
+    a = Array[Integer]
+    _required = ['x']
+
+class Mid(Structure):
+    leaf = Leaf
+    leaves = Array[Leaf]
+    by = Map[String, Leaf]
+    n = Integer
+    _required = []
+
+class Top(Structure):
+    mid = Mid
+    mids = Array[Mid]
+    pair = Tuple[Leaf, Integer]
+    i = Integer
+    _required = []
+"""
+
+_LEAF_BAD = {"x": [-1, 0, "a", [], 1.5, True], "s": ["toolong", 5, "a\nb", ["x"], ""], "e": ["NOPE", [1], 7, {"k": 1}],
+             "a": [[1, "x"], 5, "12", [[1]], {"k": 1}]}
+
+
+def _leaf(rnd):
+    d = {"x": rnd.choice([1, 2, 7])}
+    if rnd.random() < 0.7:
+        d["s"] = rnd.choice(["ab", "", "abc"])
+    if rnd.random() < 0.6:
+        d["e"] = rnd.choice(["RED", "GREEN"])
+    if rnd.random() < 0.6:
+        d["a"] = rnd.choice([[1, 2], [], [3]])
+    return d
+
+
+def _mid(rnd):
+    d = {}
+    if rnd.random() < 0.7:
+        d["leaf"] = _leaf(rnd)
+    if rnd.random() < 0.6:
+        d["leaves"] = [_leaf(rnd) for _ in range(rnd.randint(0, 3))]
+    if rnd.random() < 0.5:
+        d["by"] = {k: _leaf(rnd) for k in rnd.sample(["k", "m", "zz"], rnd.randint(0, 2))}
+    if rnd.random() < 0.5:
+        d["n"] = rnd.choice([0, 5])
+    return d
+
+
+def _top(rnd):
+    d = {}
+    if rnd.random() < 0.7:
+        d["mid"] = _mid(rnd)
+    if rnd.random() < 0.6:
+        d["mids"] = [_mid(rnd) for _ in range(rnd.randint(0, 2))]
+    if rnd.random() < 0.5:
+        d["pair"] = [_leaf(rnd), rnd.choice([0, 3])]
+    if rnd.random() < 0.5:
+        d["i"] = 4
+    return d
+
+
+def _leaves_of(doc, acc):
+    """every dict of the document that is a Leaf document (has 'x'), to be corrupted in place"""
+    if isinstance(doc, dict):
+        if "x" in doc:
+            acc.append(doc)
+        for v in doc.values():
+            _leaves_of(v, acc)
+    elif isinstance(doc, list):
+        for v in doc:
+            _leaves_of(v, acc)
+    return acc
+
+
+def _containers_of(doc, acc, parent=None, key=None):
+    if isinstance(doc, (dict, list)):
+        if parent is not None:
+            acc.append((parent, key))
+        for k, v in (doc.items() if isinstance(doc, dict) else enumerate(doc)):
+            _containers_of(v, acc, doc, k)
+    return acc
+
+
+def gen_nested_docs(rnd, n):
+    """Valid three-level documents with 1-3 point corruptions anywhere: a bad leaf value, a missing required
+    key, an unknown key, a sub-document replaced by a scalar / a list / a string."""
+    import copy
+    out = []
+    for _ in range(n):
+        doc = _top(rnd)
+        for _ in range(rnd.randint(1, 3)):
+            leaves = _leaves_of(doc, [])
+            r = rnd.random()
+            if leaves and r < 0.55:
+                lf = rnd.choice(leaves)
+                f = rnd.choice(sorted(_LEAF_BAD))
+                lf[f] = copy.deepcopy(rnd.choice(_LEAF_BAD[f]))
+            elif leaves and r < 0.65:
+                rnd.choice(leaves).pop("x", None)
+            elif leaves and r < 0.75:
+                rnd.choice(leaves)["zz"] = 1
+            else:
+                cs = _containers_of(doc, [])
+                if cs:
+                    parent, key = rnd.choice(cs)
+                    parent[key] = copy.deepcopy(rnd.choice([5, "str", [], [3], {}, {"y": 1}, None, "a\nb"]))
+                else:
+                    doc["i"] = rnd.choice(["q", 1.5, [1]])
+        out.append(doc)
+    return out
+
+
+def _to_obj(ns, cname, doc):
+    """Builds the nested instances of a document for the construction path (any rejection propagates)."""
+    if not isinstance(doc, dict):
+        return doc
+    C = ns[cname]
+    sub = {"Top": {"mid": "Mid", "mids": ["Mid"], "pair": ("Leaf",)}, "Mid": {"leaf": "Leaf", "leaves": ["Leaf"], "by": {"": "Leaf"}},
+           "Leaf": {}, "OuterN": {"inner": "InnerN", "arr": ["InnerN"], "m": {"": "InnerN"}}, "InnerN": {}}[cname]
+    kw = {}
+    for k, v in doc.items():
+        t = sub.get(k)
+        if isinstance(t, str):
+            v = _to_obj(ns, t, v)
+        elif isinstance(t, list) and isinstance(v, list):
+            v = [_to_obj(ns, t[0], x) for x in v]
+        elif isinstance(t, dict) and isinstance(v, dict):
+            v = {a: _to_obj(ns, t[""], b) for a, b in v.items()}
+        elif isinstance(t, tuple) and isinstance(v, list):
+            v = tuple([_to_obj(ns, t[0], v[0])] + list(v[1:])) if v else ()
+        kw[k] = v
+    return C(**kw)
+
+
+def nested_checks(rep, extra_docs=(), only=None):
+    """For nested structures the helper must return without raising (all four configurations): the fixed
+    two-level inputs and generated three-level documents.  only = (source name, doc) re-runs one input."""
     from typedpy import Structure, Deserializer
-    ns = {}
-    exec(IMPORTS, ns)
-    exec(NESTED_SRC, ns)
-    Outer, Inner = ns["OuterN"], ns["InnerN"]
     n = 0
-    for doc in NESTED_INPUTS:
-        for ff in (True, False):
-            for mode in ("ctor", "deser"):
-                old = Structure.failing_fast()
-                Structure.set_fail_fast(ff)
-                try:
+    groups = [("NESTED_SRC", NESTED_SRC, "OuterN", NESTED_INPUTS), ("NESTED3_SRC", NESTED3_SRC, "Top", list(extra_docs))]
+    if only is not None:
+        groups = [(g, src, top, [only[1]]) for g, src, top, _ in groups if g == only[0]]
+    for gname, src, top, docs in groups:
+        ns = {}
+        exec(IMPORTS, ns)
+        exec(src, ns)
+        for doc in docs:
+            for ff in (True, False):
+                for mode in ("ctor", "deser"):
+                    old = Structure.failing_fast()
+                    Structure.set_fail_fast(ff)
                     try:
-                        if mode == "deser":
-                            Deserializer(Outer).deserialize(dict(doc))
-                        else:
-                            kw = {}
-                            for k, v in doc.items():
-                                if k == "inner" and isinstance(v, dict):
-                                    v = Inner(**v)
-                                elif k == "arr" and isinstance(v, list):
-                                    v = [Inner(**x) if isinstance(x, dict) else x for x in v]
-                                elif k == "m" and isinstance(v, dict):
-                                    v = {a: Inner(**b) if isinstance(b, dict) else b for a, b in v.items()}
-                                kw[k] = v
-                            Outer(**kw)
-                        continue
-                    except Exception as e:  # noqa
-                        obs = observe_exception(e)
-                finally:
-                    Structure.set_fail_fast(old)
-                n += 1
-                rep.count("nested", 1, (mode, ff, obs["exn"]))
-                if obs["helper"][0] == "raise":
-                    rep.finding("C18/nested/%s/%s/helper-raises" % (mode, "ff" if ff else "all"),
-                                "helper raised on a nested-structure rejection: %s" % obs["helper"][1],
-                                {"nested": True, "doc": doc, "mode": mode, "ff": ff, "python": IMPORTS + NESTED_SRC})
+                        try:
+                            if mode == "deser":
+                                Deserializer(ns[top]).deserialize(dict(doc) if isinstance(doc, dict) else doc)
+                            else:
+                                _to_obj(ns, top, doc)
+                            rep.stat("nested", "%s:%s:accepted" % (gname, mode))
+                            continue
+                        except Exception as e:  # noqa
+                            obs = observe_exception(e)
+                    finally:
+                        Structure.set_fail_fast(old)
+                    n += 1
+                    rep.count("nested", 1, (gname, mode, ff, obs["exn"], obs["helper"][0] == "ok" and len(obs["helper"][1])))
+                    rep.stat("nested", "%s:%s:%s" % (gname, mode, obs["exn"]))
+                    if obs["helper"][0] == "raise":
+                        rep.finding("C18/nested/%s/%s/helper-raises" % (mode, "ff" if ff else "all"),
+                                    "helper raised on a nested-structure rejection: %s" % obs["helper"][1],
+                                    {"nested": True, "group": gname, "doc": doc, "mode": mode, "ff": ff, "python": IMPORTS + src})
     return n
 
 
@@ -998,11 +1134,12 @@ def replay(obj):
     if obj.get("nested"):
         class R:  # minimal report
             def count(self, *a, **k): pass
+            def stat(self, *a, **k): pass
             def finding(self, key, what, o):
                 print("FAILS    :", key, "-", what)
                 self.n = getattr(self, "n", 0) + 1
         r = R()
-        nested_checks(r)
+        nested_checks(r, only=(obj.get("group", "NESTED_SRC"), obj["doc"]))
         return 1 if getattr(r, "n", 0) else 0
     if "cls_ast" not in obj:
         print(obj.get("detail", "no concrete input in this replay file"))
@@ -1129,7 +1266,7 @@ def run(rep, tier):
             all_fails.append(key)
     if os.environ.get("C18_TIMING"):
         print("[c18] with %d lattice points: %.1fs" % (len(pts), _t.time() - _t0))
-    nn = nested_checks(rep)
+    nn = nested_checks(rep, gen_nested_docs(rnd, 120 if tier == "quick" else 1200))
     if os.environ.get("C18_KEYS"):
         for k, n in sorted(collections.Counter(all_fails).items()):
             print("[c18] key %4d %s" % (n, k))
